@@ -1572,6 +1572,57 @@ def oracle_stacked(ctx, case, prog, regs, first):
             _ = size
 
 
+def mixed_shape_model(ctx, n_cases):
+    """known finding C17-mixed-shape-broadcast, model side: a two-element message times / over a scalar message of the
+    same class does not raise; what it returns is compared, element by element, with Base.mulB / Base.divB (the
+    behaviour as it is). The oracle (element-wise expectation) reports the finding."""
+    rng = ctx.rng
+    for k_ in range(n_cases):
+        fam = ["gamma", "beta", "normal", "naturalNormal"][k_ % 4]
+        a = gen_new(rng, fam, 2)
+        b = gen_new(rng, fam, 0)
+        opname = "mul" if k_ % 3 else "div"
+        case = {"kind": "mixed-shape", "prog": [a, b, {"op": opname, "a": 0, "b": 1}]}
+        regs, first, err = run_real(case["prog"])
+        ctx.case(case["prog"], nontrivial=True, sample={"label": "mixed-shape", "prog": case["prog"]})
+        if err is not None or len(regs) < 3:
+            ctx.disagree("C17.mixed-shape:raised", case, str(err), "Base.mulB / Base.divB: no exception for two elements")
+            continue
+        real = canon_base(regs[2])
+        scale = prog_scale(regs)
+        with np.errstate(all="ignore"):
+            ea_, eb_ = nat_of(regs[0]), nat_of(regs[1])
+            tgt_ = ea_ + eb_[:, None] if opname == "mul" else ea_ - eb_[:, None]
+            elementwise = nat_of(regs[2]).shape == tgt_.shape and nat_close(nat_of(regs[2]), tgt_, scale)
+        for j in (0, 1):
+            def scal(st, i):
+                return {"op": "new", "fam": st["fam"], "p1": hx(st["p1"], (2,), i), "p2": hx(st["p2"], (2,), i),
+                        "ln": f2h(st["ln"]), "id": st["id"], "lo": f2h(st["lo"]), "hi": f2h(st["hi"])}
+            mp = [scal(a, j), scal(b, 0), {"op": opname + "b", "a": 0, "b": 1, "j": j}]
+            ans = ctx.lean.ask({"p": "C17", "tables": Rec().wire(), "prog": mp})
+            if "driver_error" in ans:
+                ctx.disagree("C17.driver", case, None, ans)
+                break
+            bad = cmp_base(real, ans["out"][2], (2,), j, scale)
+            if bad and elementwise and not set(bad) - {"p1", "p2"}:
+                ctx.hit("model:mixed-shape-elementwise")  # the code acts element-wise (the finding is repaired): no alarm
+            elif bad:
+                ctx.disagree("C17.mixed-shape:" + ",".join(sorted(set(bad))), case, {"elem": j, "impl": real}, ans["out"][2])
+            else:
+                ctx.hit("model:mixed-shape-ok")
+        # oracle: the element-wise product / quotient (what the property asks for)
+        with np.errstate(all="ignore"):
+            ea, eb = nat_of(regs[0]), nat_of(regs[1])
+            target = ea + eb[:, None] if opname == "mul" else ea - eb[:, None]
+            got = nat_of(regs[2])
+            if fam == "normal" and not nat_domain_ok("normal", target):
+                continue
+            if got.shape != target.shape or not nat_close(got, target, scale):
+                ctx.fail("C17-mixed-shape-broadcast",
+                         "an array message combined with a scalar message of the same family does not act element-wise",
+                         case, {"expected": jf(target), "got": jf(got)})
+
+
 def gb_pinned():
     """programs run on every run whatever the seed: the boundary behaviours of the newly modelled code"""
     def new(fam, p1, p2):
@@ -2240,7 +2291,8 @@ def run(ctx):
         "gamma / beta densities, the Newton inversions of the digamma equations (invpsilog, inv_beta_suffstats), "
         "from_mode and stacked transformed messages run in the model and are compared; gammaln / digamma / polygamma reach "
         "the model as (argument, value, derivative) tables; convergence of the Newton iterations is not proved (oracle at "
-        "1e-5); array broadcasting between operands of different shapes is not modelled (oracle only)",
+        "1e-5); a two-element message combined with a scalar message is modelled as the code behaves (known finding), other "
+        "shape combinations are not modelled (oracle only)",
     ]
     ctx.notes["numerical_tests"] = 0
     budget = [ctx.n(70, 2500)]
@@ -2257,6 +2309,7 @@ def run(ctx):
         else:
             case = gen_moments(ctx.rng)
             one_case(ctx, case, label="moments", budget=budget)
+    mixed_shape_model(ctx, ctx.n(8, 200))
     for case in gb_pinned():
         one_case(ctx, case, label="gamma-beta-pinned", budget=budget)
     for k in range(ctx.n(120, 5000)):
@@ -2318,5 +2371,7 @@ def replay(ctx, payload):
     case = payload.get("case") or payload.get("disagreements", [{}])[0].get("case")
     if case.get("kind") == "element-assignment":
         return element_assignment(ctx, 40)
+    if case.get("kind") == "mixed-shape":
+        return mixed_shape_model(ctx, 8)
     one_case(ctx, case, label="replay")
     print(json.dumps({"failures": ctx.failures[:3], "disagreements": ctx.disagreements[:3]}, default=str)[:3000])
